@@ -10,11 +10,11 @@ ASSUME = [
     "frames are decoded in-package with the session's own Obfuscator (C04 decides that codec against an independent one)",
     "exhaustive model check for <= 2 streams x writes of <= 2 frames x close; larger instances only through recorded traces",
 ]
-KEYS = {"seq-duplicate", "seq-gap", "seq-order", "close-not-last", "wire-undecodable", "trace-rejected", "write-interleaved", "close-frame-missing"}
+KEYS = {"seq-duplicate", "seq-gap", "seq-order", "close-not-last", "wire-undecodable", "trace-rejected", "write-interleaved", "close-frame-missing", "close-sweep-write"}
 RULE = ("(a) MuxGen behaviours with multi-frame writes and closes replayed on a real Session pair, every record decoded at the wire; "
         "(b) gate scenarios: each ordered pair of {Write, ReadFrom, Close} with the first sender parked between encode and Seq++; "
         "(c) stress rounds (1-8 connections, 1-4 streams, 2-4 concurrent writers per stream mixing Write/ReadFrom/Close, optional "
-        "connection failure) whose wire trace is validated by TLC; non-trivial = concurrent senders on one stream or a multi-frame write")
+        "connection failure) whose wire trace is validated by TLC; (d) close sweep: thousands of open/write/close rounds (closed by either side, 0-2 writes) with the closing frame and its number checked on the wire; non-trivial = concurrent senders on one stream or a multi-frame write")
 
 
 def extra(ctx):
@@ -36,7 +36,10 @@ def extra(ctx):
                                        % (lines[ln - 1] if ln <= len(lines) else "?", ln),
                                "replay": {"trace_tail": lines[max(0, ln - 15):ln]}})
     ctx.log("stress: %d wire frames, trace accepted=%s" % (s["stats"].get("wire_frames", 0), ok))
-    return {"evaluations": g["evaluations"] + s["evaluations"], "distinct_nontrivial": g["distinct_nontrivial"] + s["distinct_nontrivial"],
+    cs = lib.run_go(ctx, "multiplex", "TestVerifC13CloseSweep", timeout=900, tag="close_sweep")
+    lib.collect_go(ctx, cs)
+    ctx.log("close sweep: %d closes on healthy sessions, each with its closing frame decoded from the wire" % cs["stats"].get("closes", 0))
+    return {"evaluations": g["evaluations"] + s["evaluations"] + cs["evaluations"], "close_sweep_closes": cs["stats"].get("closes", 0), "distinct_nontrivial": g["distinct_nontrivial"] + s["distinct_nontrivial"],
             "samples": g["samples"][:1] + s["samples"][:1], "traces": s["evaluations"] if ok else 0,
             "wire_frames_validated": s["stats"].get("wire_frames", 0), "gate_rounds": g["stats"].get("gate_rounds", 0),
             "gate_second_sender_reached": g["stats"].get("second_sender_reached_gate", 0)}
